@@ -104,6 +104,10 @@ func (run *FuncRun) enterLoopHeader(st *State, b *ssa.BasicBlock, ord int) bool 
 	hs := run.computeHavoc(st, fr, b)
 	st.script.Comment(fmt.Sprintf("loop %s header (block %d): havoc", lname, b.Index))
 	if hs.all && !spec.HasAssigns {
+		// objects private to this path may be written by earlier iterations of
+		// the body: their contents are not known at an arbitrary iteration either
+		st.private = map[string]bool{}
+		st.contains = map[string][]string{}
 		st.HavocAll("loop body calls unknown code")
 	} else if spec.HasAssigns {
 		// loop assigns: pre-existing locations outside the clause keep their
